@@ -70,35 +70,22 @@ func runC10(c *Ctx) {
 		}
 		c.Check("C10.S", "WriteHeader:strip-before-forward", p, wh.Pos(), bad == "", "for every final status each path to wrapped.WriteHeader passes Header.Del(\"Set-Cookie\") on the wrapped writer's header", bad+": the backend's cookies reach the client")
 		// cookies are collected before the delete
-		cookies := Calls(wh, "(*net/http.Response).Cookies")
+		reads := setCookieReads(wh)
 		dels := []ssa.Instruction{}
 		EachInstr(wh, func(i ssa.Instruction) {
 			if isDel(i) {
 				dels = append(dels, i)
 			}
 		})
-		okc := len(cookies) == 1 && len(dels) >= 1
+		okc := len(reads) == 1 && len(dels) >= 1
 		if okc {
 			for _, d := range dels {
-				if !Dominates(cookies[0], d) {
+				if !Dominates(reads[0].At, d) {
 					okc = false
 				}
 			}
-			// Cookies() reads the same header
-			resp := Args(CallOf(cookies[0]))[0]
-			okc = okc && func() bool {
-				for _, r := range Roots(resp) {
-					a, isA := r.(*ssa.Alloc)
-					if !isA {
-						return false
-					}
-					h, ok := LiteralField(a, "Header")
-					if !ok || !isWrappedHeader(h) {
-						return false
-					}
-				}
-				return true
-			}()
+			// … and reads the same header
+			okc = okc && reads[0].Header != nil && isWrappedHeader(reads[0].Header)
 		}
 		c.Check("C10.S", "WriteHeader:intercept-before-strip", p, wh.Pos(), okc, "the backend cookies are read from the forwarded header before they are deleted", "the cookies to store in the jar are not collected from the forwarded header before Set-Cookie is deleted")
 		// every Set-Cookie added is the session cookie, on the no-session branch
@@ -450,7 +437,11 @@ func runC10(c *Ctx) {
 				a := Args(CallOf(sc))
 				c.PathIs("C10.R", "writer:store-into-that-jar", p, sc.Pos(), a[0], "SetCookies on the jar of this session", "result0:(*"+ModPath+"/agent/sessions.Cache).cachedCookieJar")
 				c.PathIs("C10.R", "writer:store-under-own-url", p, sc.Pos(), a[1], "cookies stored under the request's own URL", P(wh, 0)+".urlForCookies")
-				c.PathIs("C10.R", "writer:store-intercepted-cookies", p, sc.Pos(), a[2], "the cookies stored are the backend's intercepted ones", "result:(*net/http.Response).Cookies")
+				if rd := setCookieReads(wh); len(rd) == 1 && rd[0].Parsed {
+					c.Check("C10.R", "writer:store-intercepted-cookies", p, sc.Pos(), cookiesFromRead(a[2], rd[0].At), "the cookies stored are http.ParseSetCookie of every Set-Cookie value read from the header", "the cookies handed to SetCookies ("+PathOf(a[2])+") are not (only) the parsed Set-Cookie values read from the backend's header")
+				} else {
+					c.PathIs("C10.R", "writer:store-intercepted-cookies", p, sc.Pos(), a[2], "the cookies stored are the backend's intercepted ones", "result:(*net/http.Response).Cookies")
+				}
 			}
 		}
 	}
@@ -525,4 +516,114 @@ func isWrappedHeader(v ssa.Value) bool {
 		return false
 	}
 	return true
+}
+
+// setCookieRead: one place where the Set-Cookie values of a header are read in order to be
+// parsed: (&http.Response{Header: h}).Cookies(), or h.Values("Set-Cookie") / h["Set-Cookie"]
+// whose elements go to http.ParseSetCookie.
+type setCookieRead struct {
+	At     ssa.Instruction
+	Header ssa.Value
+	Parsed bool // the ParseSetCookie form
+}
+
+func setCookieReads(fn *ssa.Function) []setCookieRead {
+	var out []setCookieRead
+	var parses []*ssa.Call
+	for _, f := range WithClosures(fn) {
+		EachInstr(f, func(i ssa.Instruction) {
+			if IsCall(i, "net/http.ParseSetCookie") {
+				parses = append(parses, i.(*ssa.Call))
+			}
+		})
+	}
+	feedsParse := func(read ssa.Value) bool {
+		for _, pc := range parses {
+			hit := false
+			SliceBack(pc.Call.Args[0], func(v ssa.Value) bool {
+				if v == read {
+					hit = true
+					return false
+				}
+				return true
+			})
+			if hit {
+				return true
+			}
+		}
+		return false
+	}
+	seen := map[ssa.Instruction]bool{}
+	for _, f := range WithClosures(fn) {
+		EachInstr(f, func(i ssa.Instruction) {
+			if seen[i] {
+				return
+			}
+			switch x := i.(type) {
+			case *ssa.Call:
+				switch CalleeName(x.Common()) {
+				case "(*net/http.Response).Cookies":
+					seen[i] = true
+					var h ssa.Value
+					for _, r := range Roots(Args(x.Common())[0]) {
+						if a, isA := r.(*ssa.Alloc); isA {
+							if hv, ok := LiteralField(a, "Header"); ok {
+								h = hv
+							}
+						}
+					}
+					out = append(out, setCookieRead{At: i, Header: h})
+				case "(net/http.Header).Values":
+					if k, ok := ConstString(x.Call.Args[1]); ok && canonicalHeaderKey(k) == "Set-Cookie" && feedsParse(x) {
+						seen[i] = true
+						out = append(out, setCookieRead{At: i, Header: x.Call.Args[0], Parsed: true})
+					}
+				}
+			case *ssa.Lookup:
+				if NamedType(x.X.Type()) == "net/http.Header" {
+					if k, ok := ConstString(x.Index); ok && k == "Set-Cookie" && feedsParse(x) {
+						seen[i] = true
+						out = append(out, setCookieRead{At: i, Header: x.X, Parsed: true})
+					}
+				}
+			}
+		})
+	}
+	return out
+}
+
+// cookiesFromRead: every *http.Cookie that can reach v is a result of http.ParseSetCookie
+// on an element of the values read at `read` (no cookie is made up, none comes from elsewhere).
+func cookiesFromRead(v ssa.Value, read ssa.Instruction) bool {
+	rv, _ := read.(ssa.Value)
+	n, ok := 0, true
+	SliceBack(v, func(x ssa.Value) bool {
+		switch y := x.(type) {
+		case *ssa.Alloc:
+			if NamedType(y.Type()) == "net/http.Cookie" {
+				ok = false
+			}
+		case *ssa.Call:
+			switch CalleeName(y.Common()) {
+			case "net/http.ParseSetCookie":
+				n++
+				hit := false
+				SliceBack(y.Call.Args[0], func(z ssa.Value) bool {
+					if z == rv {
+						hit = true
+						return false
+					}
+					return true
+				})
+				if !hit {
+					ok = false
+				}
+				return false
+			case "(*net/http.Response).Cookies", "(*net/http.Request).Cookies", "(*net/http.Request).Cookie", "(net/http.CookieJar).Cookies", "net/http.ParseCookie":
+				ok = false
+			}
+		}
+		return true
+	})
+	return ok && n > 0
 }
